@@ -41,6 +41,47 @@ def engine_selfcheck(src, rep, pid):
         rep.error(pid + '.engine', 'regular-language engine disagrees with re: ' + x)
 
 
+def sensitivity(rep, pid):
+    """thorough tier, informational: the archived variants of this property (confirmed behaviour-breaking changes and
+    behaviour-preserving refactorings written by sub-agents) are applied to scratch copies of the *current* tree and the
+    quick check is run on each copy.  The summary goes into the evidence; it never gates the verdict (a patch may stop
+    applying when /repo changes)."""
+    import concurrent.futures
+    import shutil
+    import subprocess
+    import tempfile
+    verif = os.path.dirname(os.path.dirname(os.path.abspath(__file__)))
+    work = []
+    for kind, expect in (('seeded', 1), ('neutral', 0)):
+        base = os.path.join(verif, kind)
+        for name in sorted(os.listdir(base)) if os.path.isdir(base) else []:
+            if name.startswith(pid + '-') and os.path.isfile(os.path.join(base, name, 'patch.diff')):
+                work.append((kind, name, os.path.join(base, name), expect))
+
+    def one(w):
+        kind, name, d, expect = w
+        tmp = tempfile.mkdtemp(prefix='sa-sens-')
+        try:
+            shutil.copytree(os.path.join(core.REPO, 'lib'), os.path.join(tmp, 'lib'), ignore=shutil.ignore_patterns('__pycache__'))
+            r = subprocess.run(['patch', '-p1', '-s', '-i', os.path.join(d, 'patch.diff')], cwd=tmp, capture_output=True, text=True)
+            if r.returncode:
+                return kind, name, 'patch does not apply'
+            env = dict(os.environ, SA_REPO=tmp, SA_EVIDENCE=os.path.join(tmp, 'ev'), VERIF_TIER='quick')
+            r = subprocess.run([sys.executable, os.path.abspath(__file__), '--property', pid, '--tier', 'quick'], env=env, capture_output=True, text=True)
+            return kind, name, {0: 'silent', 1: 'violation reported', 2: 'analysis error'}.get(r.returncode, 'rc=%d' % r.returncode)
+        finally:
+            shutil.rmtree(tmp, ignore_errors=True)
+    out = {'seeded': {}, 'neutral': {}}
+    with concurrent.futures.ThreadPoolExecutor(min(16, max(1, len(work)))) as ex:
+        for kind, name, verdict in ex.map(one, work):
+            out[kind][name] = verdict
+    det = sum(1 for v in out['seeded'].values() if v == 'violation reported')
+    sil = sum(1 for v in out['neutral'].values() if v == 'silent')
+    rep.extra['sensitivity'] = {'breaking_variants': len(out['seeded']), 'reported': det, 'neutral_variants': len(out['neutral']), 'silent': sil, 'verdicts': out}
+    rep.note('%s sensitivity: %d/%d behaviour-breaking variants reported, %d/%d behaviour-preserving variants silent'
+             % (pid, det, len(out['seeded']), sil, len(out['neutral'])))
+
+
 def run_property(pid, tier):
     rep = core.Report(pid, tier)
     try:
@@ -53,6 +94,7 @@ def run_property(pid, tier):
         mod.check(src, rep, tier)
         if tier == 'thorough':
             engine_selfcheck(src, rep, pid)
+            sensitivity(rep, pid)
     except core.AnalysisError as e:
         rep.error(pid, str(e))
     except Exception as e:   # pylint: disable=broad-except
